@@ -91,8 +91,9 @@ def build(S, tier):
             K = classes(I)
             x = make_elem(I, K, a) if shape[0] == "e" else make_comp(I, K, a, "A")[0]
             y = make_elem(I, K, b) if shape[2] == "e" else make_comp(I, K, b, "B")[0]
+            before = (pieces_of(x, K), pieces_of(y, K), x.attrs.get("moves"), y.attrs.get("moves"))
             r = I.binop("+", x, y)
-            return dict(K=K, x=x, y=y, r=r)
+            return dict(K=K, x=x, y=y, r=r, before=before)
         label = f"move.__add__[{a}+{b}]"
         for i, p in enumerate(S.explore(run, label)):
             S.adopt(p, prefix=label + ":")
@@ -102,7 +103,54 @@ def build(S, tier):
                 S.prove(f"{label}#noraise@{i}", False, kind="noraise", why=f"raises {p.exc!r}")
                 continue
             v = p.value
-            check(label, i, p, v["K"], v["r"], pieces_of(v["x"], v["K"]) + pieces_of(v["y"], v["K"]))
+            px, py, lx, ly = v["before"]
+            check(label, i, p, v["K"], v["r"], px + py)
+            # x + y builds a NEW composite: the operands keep their elements and do not share their list with the result
+            S.prove(f"{label}#frame.operands_unchanged@{i}", same(pieces_of(v["x"], v["K"]), px) and same(pieces_of(v["y"], v["K"]), py), kind="ensures",
+                    why=f"left operand now {pieces_of(v['x'], v['K'])}, right operand now {pieces_of(v['y'], v['K'])}")
+            rl = v["r"].attrs.get("moves") if isinstance(v["r"], Obj) else None
+            S.prove(f"{label}#frame.result_list_not_shared_with_an_operand@{i}", rl is None or not any(rl is l_ for l_ in (lx, ly) if l_ is not None), kind="ensures")
+    # ---- user subclasses that keep their parent's composite type combine like the parent (with elements and with
+    # composites alike: the type of the result may not depend on how the sum is parenthesised)
+    USER = """
+        from quansino.moves.displacement import DisplacementMove
+        from quansino.moves.exchange import ExchangeMove
+
+        class MyDisplacement(DisplacementMove):
+            pass
+
+        class MyExchange(ExchangeMove):
+            pass
+    """
+    for sub, parent, comp in (("MyDisplacement", "D", "CD"), ("MyExchange", "E", "CE")):
+        for shape in ("sub+e", "e+sub", "sub+(e+e)", "(e+e)+sub", "sub+sub"):
+            def run(I, sub=sub, parent=parent, shape=shape):
+                K = classes(I)
+                U = I.define_module("user_moves", USER).globals[sub]
+                u = I.call(U, [[0, 1, -1]], {})
+                e1, e2 = make_elem(I, K, parent), make_elem(I, K, parent)
+                if shape == "sub+e":
+                    parts, r = [u, e1], I.binop("+", u, e1)
+                elif shape == "e+sub":
+                    parts, r = [e1, u], I.binop("+", e1, u)
+                elif shape == "sub+(e+e)":
+                    parts, r = [u, e1, e2], I.binop("+", u, I.binop("+", e1, e2))
+                elif shape == "(e+e)+sub":
+                    parts, r = [e1, e2, u], I.binop("+", I.binop("+", e1, e2), u)
+                else:
+                    u2 = I.call(U, [[0, 1, -1]], {})
+                    parts, r = [u, u2], I.binop("+", u, u2)
+                return dict(K=K, r=r, parts=parts)
+            label = f"move.__add__[user subclass {sub}: {shape}]"
+            for i, p in enumerate(S.explore(run, label)):
+                S.adopt(p, prefix=label + ":")
+                if p.status == "unsupported":
+                    continue
+                if p.status != "return":
+                    S.prove(f"{label}#noraise@{i}", False, kind="noraise", why=f"raises {p.exc!r}")
+                    continue
+                v = p.value
+                check(label, i, p, v["K"], v["r"], v["parts"])
     for fn in ("core.BaseMove.__add__", "core.BaseMove.__mul__", "composite.CompositeMove.__add__", "composite.CompositeMove.__mul__", "composite.CompositeMove.__call__"):
         S.register_function(S.new_interp(), MV + fn, len(cases))
 
